@@ -150,6 +150,8 @@ class Spectrum:
 
     def _ufunc(self, ufunc, other, sampling='min', method='linear', fill_value=0):
 
+        valueunit = self.valueunit
+
         if isinstance(other, (int, float, list, tuple, np.ndarray)):
             wave = self.wave
             try:
@@ -161,11 +163,15 @@ class Spectrum:
             wave, self_value, other_value = _interp_common(self, other, sampling,
                                                            method, fill_value)
             value = ufunc(self_value, other_value)
+            if valueunit is None:
+                # unitless (a transmission, an efficiency) combined with a flux
+                # density is a flux density, in either order
+                valueunit = other.valueunit
         else:
             raise TypeError(f"can't {ufunc.__name__} Spectrum with object of type "
                             f"{type(other).__name__}")
 
-        return Spectrum(wave, value, self.waveunit, self.valueunit)
+        return Spectrum(wave, value, self.waveunit, valueunit)
 
     def add(self, other, sampling='min', method='linear', fill_value=0):
         """Add Spectrum and other, element-wise
